@@ -53,6 +53,9 @@ class CallMixin:
                 v = self.eval(a.value)
                 items = self.iter_items_concrete(v)
                 if items is None:
+                    if isinstance(v, Opaque) or getattr(v, "unknown", False):
+                        args.append(Opaque("*args", fresh=True))     # unknown number of unknown arguments
+                        continue
                     raise Unsupported("star-args of symbolic length")
                 args.extend(items)
             else:
